@@ -1,5 +1,5 @@
 (* Properties/C08.v — !notnew (and command-line overrides) can change but never create paths. *)
-From AY Require Import Model.Merge Proofs.NotNew Proofs.FactsOk.
+From AY Require Import Model.Merge Proofs.NotNew Proofs.FactsOk Model.Cmdline Proofs.CmdlineLemmas.
 
 (* merging a key that does not exist yet, offered by a node that does not allow new paths, is a MergeError —
    for every older container (mapping or list; for a list: every index that is not an existing one), every rec, every depth *)
@@ -23,6 +23,22 @@ Theorem C08_first_stage : forall e s0 s0' q m,
   flatten e [s0] = Err EMerge [].
 Proof. exact first_stage_notnew. Qed.
 Print Assumptions C08_first_stage.
+
+(* A command-line override  key=value : the key, written in NodePath syntax (identifiers joined by dots, index groups [i]
+   after a name - exactly what NodePath renders for the path), addresses precisely that path: for EVERY non-empty sequence of
+   well-formed groups the option parser recovers the components it was rendered from.  The YAML text it writes
+   (Model.Cmdline.inline_yaml, tied character by character to Config.process_cmdline) is the one-entry-per-level mapping
+   tagged !notnew, to which C08_new_key_rejected / C08_children_inherit apply. *)
+Theorem C08_cmdline_path : forall gs, Forall (fun g => group_ok g = true) gs -> gs <> [] ->
+  inline_path (join true (comps_of gs)) = Some (comps_of gs).
+Proof. exact inline_path_of_nodepath. Qed.
+Print Assumptions C08_cmdline_path.
+
+Example C08_cmdline_example :
+  inline_yaml ["a"; "."; "b"; "["; "1"; "]"; "."; "c"; "="; "5"]%char
+  = Some ["!"; "n"; "o"; "t"; "n"; "e"; "w"; " "; "{"; " "; "a"; ":"; " "; " "; "{"; " "; "b"; ":"; " "; "{"; " "; "1"; ":"; " "; " "; "{"; " "; "c"; ":"; " "; "5"; " "; "}"; "}"; "}"; "}"]%char /\
+  inline_path ["a"; "."; "b"; "["; "1"; "]"; "."; "c"]%char = Some [PN ["a"%char]; PN ["b"%char]; PI false ["1"%char]; PN ["c"%char]].
+Proof. split; vm_compute; reflexivity. Qed.
 
 Example C08_example :
   let L f v := Leaf LScalar f (SInt v) in
